@@ -632,6 +632,7 @@ impl<'f, 'i, 't> Parser<'f, 'i, 't> {
         let dt = Offset::UTC.to_datetime(timestamp);
         let (d, t) = (dt.date(), dt.time());
         self.tm.offset = Some(Offset::UTC);
+        self.tm.timestamp = Some(timestamp);
         self.tm.year = Some(d.year_ranged());
         self.tm.month = Some(d.month_ranged());
         self.tm.day = Some(d.day_ranged());
